@@ -26,6 +26,7 @@ type Config struct {
 	NoFiles     bool          // never add file watches
 	Nested      bool          // also operate in nested unwatched subdirectories
 	PreAdd      int           // directories added before the first step
+	KeepGoing   bool          // do not stop at a WatchList/result mismatch (C01-C03: the stream is their subject; the model is the spec)
 	StartPaused bool          // pause the consumer right after the initial Adds
 }
 
@@ -62,9 +63,13 @@ type Report struct {
 	Broken     string
 	FinalLog   []string
 	Names      map[string]int // when non-nil: every received name, counted
+	KeepGoing  bool
 }
 
 func (r *Report) fail() bool {
+	if r.KeepGoing {
+		return len(r.Diffs)+len(r.Predicates) > 0 || r.Hang != ""
+	}
 	return len(r.Diffs)+len(r.ListDiffs)+len(r.ResDiffs)+len(r.Predicates) > 0 || r.Hang != ""
 }
 
@@ -147,6 +152,12 @@ func (s *Session) Sync(rep *Report, checkList bool) bool {
 			rep.ListDiffs = append(rep.ListDiffs, fmt.Sprintf("WatchList=%q model=%q after %v", l, ml, s.Tail(8)))
 		}
 	}
+	if rep.KeepGoing {
+		if len(rep.ListDiffs) > 3 {
+			rep.ListDiffs = rep.ListDiffs[:3]
+		}
+		return len(rep.Diffs) == 0
+	}
 	return len(rep.Diffs) == 0 && len(rep.ListDiffs) == 0
 }
 
@@ -206,7 +217,7 @@ func (s *Session) RemoveStrict(rep *Report, sp string) error {
 
 // RunProgram executes one random strict-mode program in dir (which becomes the cwd).
 func RunProgram(rng *rand.Rand, dir string, cfg Config) (rep *Report) {
-	rep = &Report{OpKinds: map[string]int{}}
+	rep = &Report{OpKinds: map[string]int{}, KeepGoing: cfg.KeepGoing}
 	s, err := NewSession(dir, cfg.BufSize)
 	if err != nil {
 		rep.Broken = "session: " + err.Error()
